@@ -570,3 +570,14 @@ func (c *Ctx) RunHash(trace []simrt.Event, extra ...any) {
 	}
 	c.Res.RunHashes = append(c.Res.RunHashes, fmt.Sprintf("%x", h.Sum(nil)[:10]))
 }
+
+// safely runs f and reports whether it panicked.
+func safely(f func()) (panicked bool) {
+	defer func() {
+		if r := recover(); r != nil {
+			panicked = true
+		}
+	}()
+	f()
+	return false
+}
